@@ -637,7 +637,7 @@ func c04Values(t *world.T, thorough bool) []CV {
 	case world.TNonNull:
 		return c04Values(t.Of, thorough)
 	case world.TList:
-		out := []CV{cvNul, cvL(), cvI(1), cvS("a")}
+		out := []CV{cvNul, cvL(), cvI(1), cvS("a"), cvL(cvI(1), cvL(), cvI(3))} // the last: an EMPTY list where an element belongs
 		for _, e := range c04Values(t.Of, thorough) {
 			out = append(out, cvL(e))
 			if e.K != cvNull {
@@ -647,7 +647,7 @@ func c04Values(t *world.T, thorough bool) []CV {
 		return out
 	}
 	out := append([]CV{}, c04Scalars()...)
-	out = append(out, cvL(cvI(1)))
+	out = append(out, cvL(cvI(1)), cvL()) // a list, and an empty list, where no list belongs
 	if t.Name == "I" {
 		out = append(out, c04Objects()...)
 	} else {
@@ -1127,7 +1127,107 @@ func runC04(c *core.Ctx) {
 			}
 		}
 	}
-	c.R.Bound = "complete product (9 bases x 7 wrappers x value menu x deliveries x 3 strategies)"
+	c04Growth(c, sdl, strats)
+	c.R.Bound = "complete product (9 bases x 7 wrappers x value menu x deliveries x 3 strategies); input type extended by a later load (3 extensions x cold / warm root x 4 deliveries x 3 strategies)"
+}
+
+// c04Growth: the input type I gains fields through a later load ("extend input I {...}") on a root that has (warm) or has not
+// (cold) coerced a value of I before. From then on a value that leaves a new required field out is refused and the resolver
+// not invoked; a new defaulted field left out arrives filled in.
+func c04Growth(c *core.Ctx, sdl string, strats []world.Strategy) {
+	bi := -1
+	for i, b := range c04Bases {
+		if b == "I" {
+			bi = i
+		}
+	}
+	exts := []struct {
+		name, sdl string
+		required  bool
+	}{
+		{"required-field", "extend input I { extra: Int! }\n", true},
+		{"defaulted-field", "extend input I { extra: Int = 7 }\n", false},
+		{"required-and-defaulted", "extend input I { more: String = \"m\" extra: Int = 7 must: Boolean! }\n", true},
+	}
+	dels := []struct {
+		name, query string
+		vars        map[string]interface{}
+	}{
+		{"literal", "{ f%d_0(x: {req: 2}) }", nil},
+		{"literal-in-list", "{ f%d_2(x: [{req: 2}]) }", nil},
+		{"variable-json", "query Q($v: I) { f%d_0(x: $v) }", map[string]interface{}{"v": map[string]interface{}{"req": 2.0}}},
+		{"variable-default", "query Q($v: I = {req: 2}) { f%d_0(x: $v) }", nil},
+	}
+	var idx int64
+	for _, st := range strats {
+		for _, ext := range exts {
+			for _, warm := range []bool{false, true} {
+				for _, dl := range dels {
+					idx++
+					if !c.OwnsIdx(1<<40 + idx) {
+						continue
+					}
+					c.Eval()
+					c.Nontrivial()
+					root, rec := c04Root(st, sdl)
+					query := fmt.Sprintf(dl.query, bi)
+					var res map[string]interface{}
+					var lerr error
+					pi := core.Safe(func() {
+						if warm {
+							_ = root.ResolveString(query, "", deepCopyVars(dl.vars))
+							_ = root.ResolveString(fmt.Sprintf("{ f%d_0(x: {req: 1, def: \"s\"}) }", bi), "", nil)
+						}
+						if lerr = root.ParseString(ext.sdl); lerr != nil {
+							return
+						}
+						rec.invoked, rec.args = 0, nil
+						res = root.ResolveString(query, "", deepCopyVars(dl.vars))
+					})
+					cs := c04Case{Type: "I + " + strings.TrimSpace(ext.sdl), Value: "{req: 2}", Delivery: dl.name + map[bool]string{true: "+warm-root", false: "+cold-root"}[warm], Strategy: st.String(), Query: query, Vars: fmt.Sprintf("%#v", dl.vars)}
+					attrs := map[string]string{"base": "I", "wrapper": "growth:" + ext.name, "value": "object", "delivery": cs.Delivery}
+					switch {
+					case pi != nil:
+						cs.Diff = pi.Value
+						c.Violation("panic", map[string]string{"site": pi.Site, "class": pi.Class}, cs)
+						continue
+					case lerr != nil:
+						panic(core.EngineError{Msg: "C04 growth: extension refused: " + lerr.Error()})
+					}
+					cs.Invoked, cs.Errors = rec.invoked > 0, res["errors"]
+					got := rec.args["x"]
+					if l, ok := got.([]interface{}); ok && len(l) == 1 {
+						got = l[0]
+					}
+					cs.Got = fmt.Sprintf("%#v", got)
+					_, hasErr := res["errors"]
+					switch {
+					case ext.required && rec.invoked > 0:
+						cs.Diff = "a required field added by the later load is missing, but the resolver was invoked"
+						c.Outcome("uncoercible-invoked")
+						c.Violation("resolver-invoked", attrs, cs)
+					case ext.required && !hasErr:
+						cs.Diff = "a required field added by the later load is missing, but no error"
+						c.Violation("missing-error", attrs, cs)
+					case ext.required:
+						c.Outcome("rejected-as-required")
+					case rec.invoked == 0:
+						c.Outcome("over-rejected(allowed)")
+					default:
+						m, _ := got.(map[string]interface{})
+						n, isInt := asInt64(m["extra"])
+						if m == nil || !isInt || n != 7 || m["def"] != "dflt" {
+							cs.Diff = "the defaulted field added by the later load (extra: Int = 7) is not filled in"
+							c.Outcome("nonconforming")
+							c.Violation("arg-nonconforming", attrs, cs)
+						} else {
+							c.Outcome("conforming")
+						}
+					}
+				}
+			}
+		}
+	}
 }
 
 func stripNN(t *world.T) *world.T {
@@ -1172,4 +1272,12 @@ func deepCopy(v interface{}) interface{} {
 		return out
 	}
 	return v
+}
+
+func deepCopyVars(v map[string]interface{}) map[string]interface{} {
+	if v == nil {
+		return nil
+	}
+	m, _ := deepCopy(v).(map[string]interface{})
+	return m
 }
